@@ -1280,6 +1280,15 @@ class Interp:
         if isinstance(target, (ast.Tuple, ast.List)):
             if is_handle(value):
                 value = st.get(heap_key(value), TOP)   # unpacking reads what the list holds now
+            stars = [i for i, t in enumerate(target.elts) if isinstance(t, ast.Starred)]
+            if len(stars) == 1 and isinstance(value, tuple) and value[:1] == ("tuple",) and len(value) - 1 >= len(target.elts) - 1 and getattr(self.domain, "exact_lists", False):
+                # a, *rest, z = <exact sequence>
+                items, k = list(value[1:]), stars[0]
+                after = len(target.elts) - k - 1
+                parts = items[:k] + [("tuple",) + tuple(items[k: len(items) - after])] + items[len(items) - after:]
+                for t, v in zip(target.elts, parts):
+                    st = self.assign(t.value if isinstance(t, ast.Starred) else t, v, st, fr)
+                return st
             for i, t in enumerate(target.elts):
                 v = TOP
                 if isinstance(value, tuple) and value and value[0] == "tuple" and len(value) - 1 == len(target.elts):
